@@ -127,6 +127,11 @@ ODD = [
     "INSERT INTO Odd_ VALUES (1); INSERT INTO Odd2_ VALUES (1);",
     "CREATE TABLE Odd_ (a INTEGER); CREATE TABLE Odd2_ (b INTEGER); CREATE ROP REF_ID R1 FROM MC Odd_ (a) TO 1 Odd2_ (nope); "
     "INSERT INTO Odd_ VALUES (1); INSERT INTO Odd2_ VALUES (1);",
+    "CREATE TABLE Odd_ (a WEIRD_T, c INTEGER); CREATE TABLE Odd2_ (b INTEGER); CREATE ROP REF_ID R1 FROM MC Odd_ (a) TO 1 Odd2_ (b); "
+    "INSERT INTO Odd2_ VALUES (1); INSERT INTO Odd_ VALUES (1, 2);",
+    "CREATE TABLE Odd_ (a inst_ref<Object>, c INTEGER); INSERT INTO Odd_ VALUES (1, 2);",
+    "CREATE TABLE Odd_ (c INTEGER, a WEIRD_T); CREATE TABLE Odd2_ (b WEIRD_T); CREATE ROP REF_ID R1 FROM MC Odd_ (a) TO 1 Odd2_ (b); "
+    "INSERT INTO Odd_ VALUES (2, 1); INSERT INTO Odd_ (c, a) VALUES (3, 'x');",
 ]
 REDOS_OPEN = ["'", '"', '--', "INSERT INTO X VALUES ('", 'INSERT INTO X VALUES ("', 'INSERT INTO X VALUES (1.', 'CREATE ROP REF_ID R',
               'INSERT INTO X VALUES (-', "CREATE TABLE X (A STRING); INSERT INTO X VALUES ('"]
